@@ -722,9 +722,19 @@ def proto_collect(w, obs):
 
 
 def impl_doc_summary(path):
+    """(canonical summary, parsed document or None); a document that cannot be read or has not the shape
+    dehydrate writes is an observation ("baddoc:..."), reported by the oracle — never a crash"""
+    try:
+        return _impl_doc_summary(path)
+    except Exception as ex:
+        return "baddoc:" + type(ex).__name__, None
+
+
+def _impl_doc_summary(path):
     if not os.path.exists(path):
         return "nodoc", None
-    doc = json.load(open(path, encoding="utf-8"))
+    with open(path, encoding="utf-8") as fh:
+        doc = json.load(fh)
     res = doc["results"]
     if res is None:
         rs, objs = "R-", []
@@ -803,7 +813,10 @@ MODEL_CLASS = {"del": "del", "trunc": "notjson", "garbage": "notjson", "unknown"
 
 def apply_corruption(root, name, cls, arg):
     path = os.path.join(root, "meta_data", name + ".json")
-    raw = open(path, "rb").read()
+    if not os.path.isfile(path):
+        return
+    with open(path, "rb") as fh:
+        raw = fh.read()
     if cls == "del":
         os.remove(path)
     elif cls == "trunc":
@@ -844,7 +857,9 @@ def apply_corruption(root, name, cls, arg):
         doc = json.loads(raw)
         rs = doc["results"] if isinstance(doc["results"], list) else [doc["results"]]
         rel = rs[arg]["object"]["relative_path"]
-        os.remove(os.path.join(root, "data", rel.lstrip("/")))
+        pth = os.path.join(root, "data", rel.lstrip("/"))
+        if os.path.isfile(pth):
+            os.remove(pth)
 
 
 # ----------------------------------------------------------------------------- one archive, end to end
@@ -880,6 +895,27 @@ def _run_world(w, desc, patterns, fail, count):
         keep[si] = True
         count("spec:" + o["sp"]["t"])
         count("doc:" + impl[si].split("|")[0] + ("+errors" if docs[o["name"]] and docs[o["name"]]["errors"] else ""))
+
+    # ---- files named by the documents vs files present under data/: a persisted component whose data is
+    #      missing will not load as persisted (reported here; every later file operation skips such files)
+    missing_data = set()
+    for o, si in zip(obs, spec_idx):
+        doc = docs[o["name"]]
+        if impl[si].startswith("baddoc"):
+            fail("the meta_data document collection wrote for %s cannot be read back (%s)" % (o["sp"]["t"], impl[si]),
+                 _case(desc, spec=o["sp"]["name"]), None)
+        if not doc or not doc.get("results"):
+            continue
+        rs = doc["results"] if isinstance(doc["results"], list) else [doc["results"]]
+        for j, r in enumerate(rs):
+            rel = r["object"]["relative_path"]
+            if not os.path.isfile(os.path.join(w.out, "data", rel.lstrip("/"))):
+                missing_data.add(rel)
+                fail("a persisted component's data is missing: the document of %s names data/%s (element %d) and no such file "
+                     "is in the archive — it will not load as persisted" % (o["sp"]["t"], rel, j),
+                     _case(desc, spec=o["sp"]["name"], elem=j), None)
+    if missing_data:
+        count("archive:document names a data file that is not there")
 
     # ---- pooled collection must persist exactly what serial collection of the same specs persists
     if desc.get("pool"):
@@ -1033,7 +1069,12 @@ def _run_world(w, desc, patterns, fail, count):
     # ---- corrupted copies
     for pat in patterns:
         root = os.path.join(w.tmp, "copy")
-        shutil.copytree(w.out, root)
+        try:
+            shutil.copytree(w.out, root, symlinks=True)
+        except Exception as ex:
+            fail("the archive collection wrote cannot be copied: %s: %s" % (type(ex).__name__, ex), _case(desc), None)
+            shutil.rmtree(root, ignore_errors=True)
+            continue
         lines.append("restore"); impl.append("ok"); keep.append(False)
         touched, removed = set(), set()
         for c in pat:
@@ -1050,6 +1091,9 @@ def _run_world(w, desc, patterns, fail, count):
                 arg = int(arg * n) % n
                 rel = (rs[arg] if isinstance(rs, list) else rs)["object"]["relative_path"]
                 if rel in removed:
+                    continue
+                if rel in missing_data or not os.path.isfile(os.path.join(root, "data", rel.lstrip("/"))):
+                    count("corrupt:rmdata skipped (the data file is not there; reported by the oracle)")
                     continue
                 removed.add(rel)
             touched.add(name)
@@ -1146,8 +1190,12 @@ def stream_text(chk, n):
                     pos = rng.randrange(len(ls[k]) + 1)
                     ls[k] = ls[k][:pos] + rng.choice(BREAKS + ["\n\n", "\r\r", "\n\r"]) + ls[k][pos:]
                 dst = os.path.join(tmp, "d", "f%d" % i)
-                DatasourceProvider(list(ls), "x").write(dst)
-                got = SerializedOutputProvider("d/f%d" % i, root=tmp).content
+                try:
+                    DatasourceProvider(list(ls), "x").write(dst)
+                    got = SerializedOutputProvider("d/f%d" % i, root=tmp).content
+                except Exception as ex:
+                    chk.failure("written content cannot be read back (%s: %s)" % (type(ex).__name__, ex), {"op": "rw", "lines": ls})
+                    got = ["<%s>" % type(ex).__name__]
                 cases.append(("rw", ls))
                 lines.append("\t".join(["rw", str(len(ls))] + [enc(l) for l in ls]))
                 impl.append(show_lines(got))
@@ -1162,7 +1210,11 @@ def stream_text(chk, n):
                 p = os.path.join(tmp, "t%d" % i)
                 with open(p, "wb") as f:
                     f.write(text.encode("utf-8"))
-                got = SerializedOutputProvider("t%d" % i, root=tmp).content
+                try:
+                    got = SerializedOutputProvider("t%d" % i, root=tmp).content
+                except Exception as ex:
+                    chk.failure("a text file under data/ cannot be loaded (%s: %s)" % (type(ex).__name__, ex), {"op": "read", "text": text})
+                    got = ["<%s>" % type(ex).__name__]
                 cases.append(("read", text))
                 lines.append("read\t" + enc(text))
                 impl.append(show_lines(got))
@@ -1370,6 +1422,8 @@ def replay(data):
         try:
             DatasourceProvider(list(c["lines"]), "x").write(os.path.join(tmp, "d", "f"))
             got = SerializedOutputProvider("d/f", root=tmp).content
+        except Exception as ex:
+            got = ["<%s>" % type(ex).__name__]
         finally:
             shutil.rmtree(tmp, ignore_errors=True)
         print("persisted", c["lines"][:6], "loaded", got[:6])
